@@ -114,10 +114,11 @@ def check(repo, tier):
                     slots, before, after = central[-1]
                     sw = mx.swap_inverse(got[:-1])
                     sw = mx.untruncate(sw) if thr else mx.canon(sw)
-                    want = mx.canon(l2rules.pair_mx(before[nmodes - 1], before[nmodes]))
+                    want = l2rules.pair_mx(before[nmodes - 1], before[nmodes])
+                    want = mx.untruncate(want) if thr else mx.canon(want)
                     if not any(f[0] == 'Sinv' for f in got):
                         (bad if any(f[0] == 'S' for f in got) else unknown).append(f'the last two cores are  {mx.show(got)}: the singular values are not inverted')
-                    elif sw is None:
+                    elif sw is None or want is None:
                         unknown.append('truncated factors of an unregistered decomposition')
                     elif sw != want:
                         new_atoms = {f[:2] for f in sw if f[0] == 'src'} - {f[:2] for f in want if f[0] == 'src'}
